@@ -643,8 +643,10 @@ def run_check(prop, tier, seed, budget_scale=1.0):
     unconfirmed = []
     os.makedirs(REPLAYS, exist_ok=True)
     handled = 0
-    for (cls, sig), info in found.items():
-        if handled >= cfg.get("max_reported", 3):
+    for (cls, sig), info in sorted(found.items(), key=lambda kv: 0 if kv[1]["key"][1] == "shipped" else 1):
+        # up to 3 reported violations; candidates that end as unconfirmed anomalies (or fail the replay gate) do not use up the
+        # slots of real ones, but the total work is bounded
+        if n_viol >= cfg.get("max_reported", 3) or handled >= 2 * cfg.get("max_reported", 3):
             break
         plan = info["plan"]
         key = info["key"]
